@@ -10,6 +10,16 @@ import torch
 from core import Ctx, Violation, err_name, line, ok_tensor, tensor_groups
 
 PROP = "C10"
+MANIFEST = {
+    "text": "Lean 4 theorems over all sizes/parities: centre crop = central window at offset floor((n-s)/2); pad places data at "
+            "floor((N-n)/2); pad followed by centre crop is the identity; F.pad pair order for any number of axes; bbox window "
+            "specification. Tied to the code by translated arithmetic (bridge lemmas closed by omega) and exact differential "
+            "correspondence on labelled tensors.",
+    "note": "Trusted: Lean kernel (+propext, Classical.choice, Quot.sound), the AST translator, the row-major lifting alongAxis "
+            "(validated by correspondence), torch slicing/F.pad semantics. k-space crop/pad equivalence is checked on the "
+            "implementation under FFT rounding tolerance, not proved.",
+    "technique": "Lean 4 proof (omega/list induction) + AST translation bridge + differential correspondence",
+}
 TRUSTED = [
     "Lean 4.33 kernel; axioms ⊆ {propext, Classical.choice, Quot.sound}",
     "harness/translate (Python AST -> Lean) for center_crop / complex_center_crop / pad_tensor arithmetic",
